@@ -1,6 +1,11 @@
 from engine import G
 LEVEL = "other"
-LEVEL_TEXT = "see DESIGN.md section 5 C01"
+LEVEL_TEXT = ("Mixed, per group: P/Pc = belt block function == STB 34.101.31 6.1 (8 rounds over the file's own G macros, z3), D(E(x)) == x, "
+              "G-macros == RotHi^r(H...), H table == its generator, key expansion -- all inputs.  B = ECB/CBC/CFB/CTR/MAC Start/Step functions == the "
+              "standard's mode equations written over the same uninterpreted block function, and Decr o Encr == id, for every listed concrete "
+              "message length (ragged tails, ciphertext stealing, all three key lengths), key/IV/contents symbolic, states of exactly _keep() octets.  "
+              "X = beltFMTCalcB on its complete finite domain by native enumeration against exact big-integer powers.  N = native stand-ins (DWP "
+              "against the standard incl. 'Unwrap accepts exactly the right tag', FMT round trip and error, octet interfaces).")
 BELT = ["src/crypto/belt/belt_ecb.c", "src/crypto/belt/belt_cbc.c", "src/crypto/belt/belt_cfb.c", "src/crypto/belt/belt_ctr.c",
         "src/crypto/belt/belt_lcl.c", "src/core/mem.c", "src/core/util.c", "src/core/blob.c", "src/core/u32.c", "src/core/u64.c",
         "src/core/u16.c", "src/core/word.c"]
@@ -67,5 +72,5 @@ GROUPS += [
       note="native: out-of-range alphabet size is answered with ERR_BAD_INPUT; NOT proof"),
 ]
 TRUSTED = ["stubs/belt_uf.c: uninterpreted block function with the inverse axiom (discharged separately on belt_block.c)"]
-ASSUMPTIONS = []
-NOT_COVERED = []
+ASSUMPTIONS = ["mode, MAC and DWP specs are the author's rendering of STB 34.101.31; validated natively against the real code, which passes the standard's test vectors in the repository's suite"]
+NOT_COVERED = ["CHE, WBL/KWP, hash, BDE/SDE, KRP, HMAC, PBKDF2 against the standard (only relations in C10/C11/C09)", "DWP under CBMC (attempted only)"]
